@@ -16,6 +16,7 @@ CONSTANTS
   CancelCalls = {}
   EnvTClose = TRUE
   OrderedStart = TRUE
+  Eager = FALSE
   WithHist = FALSE
 VIEW ViewNoHist
 INVARIANTS ClosedRejects
